@@ -6,13 +6,14 @@ from collections import Counter
 from .core import VERIF
 from .lib import callers, status_const_of_ctor
 from .lib_c13 import site_what
+from .lib_c18 import census_sites, holds_variant_at
 from .lib_c16 import (PANIC_KINDS_TEXT, SELECT_OUT, SERVE, SPAWN, accept_arms, after_await, awaits, discr_switches, exits_only_on_close_signal,
-                      load_panic_table, norm_fid, owner_fn, panic_sites, result_switches_of, return_defs, rta_region, server_task, slice_has_call_at, variant_edge)
+                      load_panic_table, norm_fid, owner_fn, result_switches_of, return_defs, rta_region, server_task, slice_has_call_at, variant_edge)
 
 LEVEL = "other"
 TECHNIQUE = "static analysis: path rules on the MIR of the accept loops and the request wrapper (error edges never leave the loop, never reach a return or a panic), forward flow of connection futures, closed census of potential panic sites over the accept-path and request-path call-graph regions against a reviewed table"
 LEVEL_TEXT = ("Decides on all paths of the MIR (current tree): HttpAcceptor::accept returns only on the Ok edge of TcpListener::accept().await and every Err path loops back without a "
-              "return or a panic; the TLS stream only ever yields Ok(conn) and ends only through select!'s all-disabled arm, so a failed negotiation neither ends nor poisons it; both accept "
+              "return or a panic; the TLS stream only ever yields Ok(conn) -- an Ok(..) aggregate, or a Result tested on every path from its definition to the yield with the Err edge excluded -- and ends only through select!'s all-disabled arm, so a failed negotiation neither ends nor poisons it; both accept "
               "loops of the server task are left only on the close signal; every connection future and every TLS negotiation is handed to tokio::spawn / FuturesUnordered and never awaited "
               "by the accept loop; http_request_handle_wrap yields Ok(response) on every path, turning the error arm into HandlerError::into_response; and every potential panic site "
               "(" + PANIC_KINDS_TEXT + ") in the call-graph regions of the accept path and of http_request_handle_wrap is on a reviewed table with its multiplicity.  "
@@ -25,9 +26,9 @@ EXPLANATION = ("Rules over the MIR of server::HttpAcceptor::accept, HttpsAccepto
                "vs tables/c18_panics.txt, keyed (region, source-level function item, kind, what) with multiplicity, evaluated on the normalised view -- `what` is the tested value and panicking variant "
                "(`Option::None <- origin`) for a site that tests an Option/Result, whatever its spelling (unwrap / expect / let-else / match arm / combinator closure), else the callee or assert kind; "
                "closures, async blocks and inlined private helpers count "
-               "with the function they are written in; foreign-macro expansions bucketed per function; debug_assert! bodies and match arms of an enum variant the scrutinee provably cannot "
-               "hold at that point are not sites).")
-TRUSTED = ["rustc nightly MIR + const evaluation", "mirfacts extractor", "rules/engine.py + rules/lib_c16.py + rules/lib_c13.py (what a panic site tests)", "tables/c18_panics.txt (each line reviewed)", "tokio / hyper / async-stream semantics"]
+               "with the function they are written in; foreign-macro expansions bucketed per function; debug_assert! bodies, match arms of an enum variant the scrutinee provably cannot "
+               "hold at that point, and the overflow assertion of `len(a) + len(b)` -- two object lengths cannot wrap usize -- are not sites).")
+TRUSTED = ["rustc nightly MIR + const evaluation", "mirfacts extractor", "rules/engine.py + rules/lib_c16.py + rules/lib_c18.py + rules/lib_c13.py (what a panic site tests) + rules/lib_c10.py (_sum_of_two_lengths)", "tables/c18_panics.txt (each line reviewed)", "tokio / hyper / async-stream semantics"]
 
 TABLE = os.path.join(VERIF, "tables", "c18_panics.txt")
 _FWD_PLUMBING = r"UpgradeableConnection::<'_, I, S, E>::into_owned$|graceful::GracefulShutdown::watch$|^tokio::spawn$|mem::drop$"
@@ -71,7 +72,7 @@ def r1_accept_tolerates_errors(ctx):
     leaves = [b for b in err_region if acc.blocks[b]["term"]["t"] == "return"]
     loops_back = abb in acc.reachable(errb)
     ctx.check(R, "tcp-accept-error-loops-back", not leaves and loops_back, "from the Err edge: returns reachable before the next accept=%d; the next tcp.accept() is reachable=%s" % (len(leaves), loops_back), (acc, errb))
-    ps = [(k, w) for k, w, bucket, b in panic_sites(acc) if b in err_region and acc.edge_dominates(sbb, errb, b)]
+    ps = [(k, w) for k, w, bucket, b in census_sites(acc) if b in err_region and acc.edge_dominates(sbb, errb, b)]
     ctx.check(R, "tcp-accept-error-path-cannot-panic", not ps, "potential panic sites on the Err path: %s" % ps, (acc, errb))
     inloop = abb in acc.loop_blocks()
     ctx.check(R, "tcp-accept-in-retry-loop", inloop, "tcp.accept() lies on a cycle: %s" % inloop, (acc, abb))
@@ -80,9 +81,10 @@ def r1_accept_tolerates_errors(ctx):
     if sc is not None:
         sends = sc.live_calls(r"async_stream::yielder::Sender::<T>::send$")
         for n, (bb, t) in enumerate(sorted(sends)):
-            kv = sc._known_variant_of(t["args"][1], sc.defs())
-            ok = kv == ("std::result::Result", 0)
-            ctx.check(R, "tls-stream-yield#%d-is-Ok" % n, ok, "value yielded by the TLS stream is a literal Ok(..): %s" % ok, (sc, bb))
+            # the item is an `Ok(..)` aggregate, or a Result that was tested on every path from its definition to the yield
+            # with the Err edge excluded (`if let Err(e) = &negotiation { warn } else { yield negotiation }`)
+            ok, how = holds_variant_at(sc, t["args"][1], bb, "std::result::Result", "Ok")
+            ctx.check(R, "tls-stream-yield#%d-is-Ok" % n, ok, "value yielded by the TLS stream is certainly Ok(..): %s (%s)" % (ok, how), (sc, bb))
         dis = []
         for sbb2, info2 in discr_switches(sc, SELECT_OUT):
             e = variant_edge(sc, sbb2, info2, "Disabled")
@@ -228,7 +230,7 @@ def _census(ctx, D, R, region_name, fids, rows):
         # a site is attributed to the source-level function item it is written in: whether it sits in the body, in a
         # closure / async block of it, or in a private helper that was inlined into it is a matter of style
         item = norm_fid(owner_fn(D, g).id)
-        for kind, what, bucket, bb in panic_sites(g):
+        for kind, what, bucket, bb in census_sites(g):
             if kind == "call" and not bucket:
                 # an unwrap-like site is keyed by what it tests (`Option::None <- <origin of the value>`), not by how the
                 # test is spelled: `.expect("..")`, `let Some(x) = v else { panic!("..") }` and a match with an
@@ -313,6 +315,10 @@ RULES = [("C18.R6", r_frame_errors_are_errors), ("C18.R5", r5_no_client_sized_al
 _S = "dropshot/src/server.rs"
 _I32 = " " * 32
 _I28 = " " * 28
+_I24 = " " * 24
+_M_OLD = _I24 + "match negotiation {\n" + _I28 + "Ok(conn) => yield Ok(conn),\n" + _I28 + "Err(e) => {"
+_M_END = _I32 + "warn!(log, \"tls accept err: {}\", e);\n" + _I28 + "},\n" + _I24 + "}"
+_M_END_NEW = _I32 + "warn!(log, \"tls accept err: {}\", e);\n" + _I28 + "}\n" + _I24 + "}"
 SELFTEST = [
     {"name": "accept-error-panics", "kind": "mutant", "why": "a per-socket accept error (ECONNABORTED from a peer that reset early) kills the accept task",
      "edits": [(_S, "                    | std::io::ErrorKind::ConnectionReset => (),", "                    | std::io::ErrorKind::ConnectionReset => panic!(\"accept failed: {}\", e),")],
@@ -369,6 +375,16 @@ SELFTEST = [
     {"name": "bad-request-conversion-through-local", "kind": "benign", "why": "behaviour-preserving: From<hyper::Error> binds the message and the 400 error to locals before returning",
      "edits": [("dropshot/src/error.rs", "impl From<HyperError> for HttpError {\n    fn from(error: HyperError) -> Self {\n        // TODO-correctness dig deeper into the various cases to make sure this\n        // is a valid way to represent it.\n        HttpError::for_bad_request(\n            None,\n            format!(\"error processing request: {}\", error),\n        )",
                 "impl From<HyperError> for HttpError {\n    fn from(error: HyperError) -> Self {\n        let message = format!(\"error processing request: {}\", error);\n        let bad_request = HttpError::for_bad_request(None, message);\n        bad_request")]},
+    {"name": "stream-yields-result-tested-by-predicate", "kind": "benign", "why": "behaviour-preserving: the negotiation outcome is yielded whole under `if Result::is_ok(&negotiation)`; the failure is logged on the other branch",
+     "edits": [(_S, _M_OLD, _I24 + "if Result::is_ok(&negotiation) {\n" + _I28 + "yield negotiation;\n" + _I24 + "} else if let Err(e) = negotiation {\n" + _I28 + "{"), (_S, _M_END, _M_END_NEW)]},
+    {"name": "stream-yields-result-under-let-else-test", "kind": "benign", "why": "behaviour-preserving: `if let Err(e) = &negotiation { warn } else { yield negotiation }` -- the yielded Result was tested, the Err edge does not reach the yield",
+     "edits": [(_S, _M_OLD, _I24 + "if let Err(e) = &negotiation {\n" + _I28 + "{"), (_S, _M_END, _M_END_NEW[:-len(_I24 + "}")] + _I24 + "} else {\n" + _I28 + "yield negotiation;\n" + _I24 + "}")]},
+    {"name": "stream-yields-untested-result", "kind": "mutant", "why": "the negotiation outcome is yielded whatever it is (the test only logs): a failed TLS handshake reaches the accept loop as Err and the HTTPS select! arm stops matching",
+     "edits": [(_S, _M_OLD, _I24 + "if let Err(e) = &negotiation {\n" + _I28 + "{"), (_S, _M_END, _M_END_NEW + "\n" + _I24 + "yield negotiation;")],
+     "expect": ["C18.R1"]},
+    {"name": "stream-yields-result-on-wrong-polarity", "kind": "mutant", "why": "only failed negotiations are yielded",
+     "edits": [(_S, _M_OLD, _I24 + "if !Result::is_ok(&negotiation) {\n" + _I28 + "yield negotiation;\n" + _I24 + "} else if let Err(e) = negotiation {\n" + _I28 + "{"), (_S, _M_END, _M_END_NEW)],
+     "expect": ["C18.R1"]},
     {"name": "sleep-tuned", "kind": "benign", "why": "property-preserving: back-off after a resource-exhaustion accept error changed from 100 ms to 50 ms",
      "edits": [(_S, "                        tokio::time::sleep(std::time::Duration::from_millis(\n                            100,\n                        ))", "                        tokio::time::sleep(std::time::Duration::from_millis(\n                            50,\n                        ))")]},
 ]
